@@ -122,6 +122,40 @@ def _relayout(root: str, rename_locals: bool) -> None:
                 fh.write("\n\n\n" + ast.unparse(tree) + "\n")
 
 
+VERIF = os.path.dirname(os.path.dirname(os.path.abspath(__file__)))
+
+
+def corpus(pid: str) -> List[Tuple[str, str]]:
+    """(kind, directory) of the stored patches replayed by the thorough tier: the seeded
+    breakages of this property that the property's own rules are known to report
+    (seeded/RESULTS.json) and every behaviour-preserving refactoring (benign/)."""
+    out: List[Tuple[str, str]] = []
+    try:
+        import json
+        res = json.load(open(os.path.join(VERIF, "seeded", "RESULTS.json")))["seeds"]
+    except Exception:
+        res = {}
+    for name, r in sorted(res.items()):
+        if r.get("property") == pid and r.get("caught_by_own_property"):
+            d = os.path.join(VERIF, "seeded", name)
+            if os.path.exists(os.path.join(d, "patch.diff")):
+                out.append(("seed", d))
+    bdir = os.path.join(VERIF, "benign")
+    if os.path.isdir(bdir):
+        for name in sorted(os.listdir(bdir)):
+            d = os.path.join(bdir, name)
+            if os.path.exists(os.path.join(d, "patch.diff")):
+                out.append(("refactoring", d))
+    return out
+
+
+def _git_apply(root: str, patch: str) -> Optional[str]:
+    import subprocess
+    p = subprocess.run(["git", "apply", patch], cwd=root, stdout=subprocess.PIPE, stderr=subprocess.STDOUT,
+                       text=True)
+    return None if p.returncode == 0 else p.stdout.strip().splitlines()[-1][:160] if p.stdout.strip() else "git apply failed"
+
+
 def _run_one(args) -> Dict[str, Any]:
     pid, kind, idx, seed = args
     mod = importlib.import_module("sa.rules." + pid.lower())
@@ -131,6 +165,24 @@ def _run_one(args) -> Dict[str, Any]:
         name = kind
         expect: Tuple[str, ...] = ()
         benign = True
+        if kind in ("seed", "refactoring"):
+            name = "%s %s" % (kind, os.path.basename(idx))
+            err = _git_apply(tmp, os.path.join(idx, "patch.diff"))
+            if err:
+                return {"name": name, "status": "skipped", "detail": err, "benign": kind == "refactoring"}
+            rep = report.Report(pid, "quick", seed)
+            try:
+                mod.run(DB(tmp), rep)
+            except Exception as e:
+                # exit 2 either way: fine for a refactoring (never a VIOLATION), a miss for a seed
+                return {"name": name, "status": "ran", "fired": [] if kind == "refactoring" else [],
+                        "benign": kind == "refactoring", "expect": ["<any>"] if kind == "seed" else [],
+                        "floor_errors": [], "first": repr(e)[:160], "corpus": kind}
+            fired = sorted({v.rule for v in rep.violations})
+            return {"name": name, "status": "ran", "fired": fired, "benign": kind == "refactoring",
+                    "expect": ["<any>"] if kind == "seed" else [], "floor_errors": [],
+                    "first": (rep.violations[0].where + " " + rep.violations[0].message)[:200]
+                    if rep.violations else "", "corpus": kind}
         if kind == "mutant":
             db0 = DB()
             ms: List[Mutant] = mod.mutants(db0) if hasattr(mod, "mutants") else []
@@ -173,6 +225,8 @@ def run(pid: str, seed: int) -> Dict[str, Any]:
     ms: List[Mutant] = mod.mutants(db0) if hasattr(mod, "mutants") else []
     jobs = [(pid, "mutant", i, seed) for i in range(len(ms))]
     jobs += [(pid, "relayout", 0, seed), (pid, "relayout+rename", 0, seed)]
+    if not os.environ.get("SA_NO_CORPUS"):
+        jobs += [(pid, k, d, seed) for k, d in corpus(pid)]
     budget = int(os.environ.get("SA_SELFTEST_BUDGET", "400"))
     if len(jobs) > budget:
         rnd = random.Random(seed)
@@ -181,9 +235,27 @@ def run(pid: str, seed: int) -> Dict[str, Any]:
         results = pool.map(_run_one, jobs)
     errors: List[str] = []
     mutants = caught = benign = silent = skipped = 0
+    seeds = seeds_caught = refs = refs_silent = corpus_skipped = 0
     details = []
     for r in results:
         details.append({k: r.get(k) for k in ("name", "status", "fired", "expect", "detail")})
+        if r.get("corpus") or r["name"].startswith(("seed ", "refactoring ")):
+            if r["status"] == "skipped":
+                corpus_skipped += 1
+            elif r["name"].startswith("seed "):
+                seeds += 1
+                if r["fired"]:
+                    seeds_caught += 1
+                else:
+                    errors.append("stored breakage '%s' is no longer reported (%s)" % (r["name"], r.get("first", "")))
+            else:
+                refs += 1
+                if not r["fired"]:
+                    refs_silent += 1
+                else:
+                    errors.append("behaviour-preserving refactoring '%s' is reported as a violation: %s %s" %
+                                  (r["name"], r["fired"], r.get("first", "")))
+            continue
         if r["status"] == "skipped":
             skipped += 1
             continue
@@ -204,8 +276,14 @@ def run(pid: str, seed: int) -> Dict[str, Any]:
             else:
                 errors.append("mutant '%s' not caught (expected rule %s, fired %s)" %
                               (r["name"], "/".join(r["expect"]), r["fired"]))
+    if (seeds + refs + corpus_skipped) and corpus_skipped * 2 > (seeds + refs + corpus_skipped):
+        errors.append("%d of %d stored patches no longer apply to the tree" %
+                      (corpus_skipped, seeds + refs + corpus_skipped))
     if ms and skipped * 2 > len(ms):
         errors.append("%d of %d mutants no longer apply to the tree" % (skipped, len(ms)))
     return {"errors": errors, "details": details,
             "summary": {"mutants": mutants, "caught": caught, "benign": benign, "silent": silent,
-                        "skipped": skipped, "exhaustive": len(jobs) <= budget}}
+                        "skipped": skipped, "exhaustive": len(jobs) <= budget,
+                        "stored_breakages": seeds, "stored_breakages_reported": seeds_caught,
+                        "refactorings": refs, "refactorings_without_violation": refs_silent,
+                        "corpus_patches_not_applicable": corpus_skipped}}
